@@ -173,7 +173,7 @@ where
 
             // cleanup: we used `Some(String::new())` to mark unnamed variables as present
             while let Some(name) = vars.names.last() {
-                if !name.as_ref().is_some_and(String::is_empty) {
+                if name.as_ref().is_some_and(|n| !n.is_empty()) {
                     break;
                 }
                 vars.names.pop();
